@@ -375,6 +375,21 @@ def run_e2e(ctx, cov, ca, prefs):
     except (OSError, ValueError):
         pass
     kraw, rc = run_client(ctx, kops, tag="e%d" % ca, netns_pid=pid)
+    # a run that failed is repeated alone (twice at most) while the server is still up: under heavy machine load the
+    # client's own 10 s dial / 25 s request timeouts fire; a failure that is the code's repeats
+    for attempt in range(2):
+        if rc != 0 or len(kraw) != len(kops):
+            break
+        again = [i for i, l in enumerate(kraw) if not l.startswith("ok")]
+        if not again:
+            break
+        r2, rc2 = run_client(ctx, [kops[i] for i in again], tag="e%dr%d" % (ca, attempt), netns_pid=pid)
+        if rc2 != 0 or len(r2) != len(again):
+            break
+        for i, l in zip(again, r2):
+            if l.startswith("ok"):
+                cov["e2e_runs_repeated_after_failure"] = cov.get("e2e_runs_repeated_after_failure", 0) + 1
+                kraw[i] = l
     open(os.path.join(d, "stop"), "w").close()
     th.join()
     if rc != 0 or len(kraw) != len(kops):
